@@ -47,6 +47,27 @@ def prepare(case, fault=None, record_sites=True, keep_args=True, policy="fresh")
         spec.x0 = x0
     else:
         x0 = None if spec.x0 is None else np.copy(spec.x0)
+    if case.get("x0_out") and x0 is not None:
+        # a start point that violates some variable bounds (allowed for properties that do not assume an in-bounds start)
+        r2 = rng_for("x0out", *case["gseed"])
+        x0 = np.array(x0, dtype=float, copy=True)
+        for j in range(spec.n):
+            if spec.var_lb[j] == spec.var_ub[j] or r2.random() < 0.4:
+                continue
+            if np.isfinite(spec.var_ub[j]) and (r2.random() < 0.5 or not np.isfinite(spec.var_lb[j])):
+                x0[j] = spec.var_ub[j] + r2.uniform(0.1, 1.0)
+            elif np.isfinite(spec.var_lb[j]):
+                x0[j] = spec.var_lb[j] - r2.uniform(0.1, 1.0)
+        spec.x0 = x0
+    zsel = case.get("x0_zero")
+    if zsel is not None and x0 is not None and spec.meta.get("zero_lb"):
+        # which of the variables with lower bound 0 start exactly at 0 (decides the stored sparsity pattern)
+        x0 = np.array(x0, dtype=float, copy=True)
+        zl = spec.meta["zero_lb"]
+        for t, j in enumerate(zl):
+            hi = spec.var_ub[j] if np.isfinite(spec.var_ub[j]) else 2.0
+            x0[j] = 0.0 if (t % 2 == zsel % 2) else 0.5 * hi
+        spec.x0 = x0
     weights = None
     if cfgd.get("scaling") == "custom":
         weights = cfgd.get("weights") or C.scaling_weights(rng, spec.n, spec.m, span=int(case.get("wspan", 6)))
@@ -168,11 +189,19 @@ def check_in_bounds(p, out, trans_bounds=None):
                          "detail": {"component": c["comp"], "x": x, "chain": chain}})
     if trans_bounds is not None:
         lb, ub = trans_bounds
+        n0 = p.spec.n
         for cb in out.trace.callbacks:
             for nm in ("iter", "next"):
                 x = cb[nm].x
                 stats["callback_iterates_checked"] = stats.get("callback_iterates_checked", 0) + 1
-                if np.any(x < lb) or np.any(x > ub):
+                if x.shape != lb.shape:
+                    # internal layout differs from the reference transformation (not this property's business):
+                    # judge the part that corresponds to the user's variables
+                    x, lbc, ubc = x[:n0], lb[:n0], ub[:n0]
+                    stats["callback_iterates_layout_differs"] = stats.get("callback_iterates_layout_differs", 0) + 1
+                else:
+                    lbc, ubc = lb, ub
+                if np.any(x < lbc) or np.any(x > ubc):
                     viol.append({"what": "iterate handed to a callback lies outside the (internal) box",
                                  "key": {"kind": "callback-iterate-out-of-bounds", "which": nm},
                                  "detail": {"x": x}})
@@ -346,6 +375,12 @@ def check_story(p, out, Rt):
         if T[i + 1]["iter"] is not exp:
             bad("chain", "step %d does not start from the previously accepted point (step %d was %s)"
                 % (i + 1, i, "accepted" if eff[i] else "not accepted"))
+            break
+        # ... and by value (the recorded copies): the point must not have changed in between
+        ex, ey = (T[i]["xn"], T[i]["yn"]) if eff[i] else (T[i]["x"], T[i]["y"])
+        if not (np.array_equal(T[i + 1]["x"], ex) and np.array_equal(T[i + 1]["y"], ey)):
+            bad("chain-value", "step %d starts from a point whose value differs from the previously accepted point "
+                "(the iterate changed between two steps)" % (i + 1))
             break
     if T:
         z0, y0 = Rt.to_internal(x0_array(p), y0_array(p))
